@@ -55,22 +55,27 @@ def parse_line(out):
     return obj, None
 
 
-def check_program(idx, src, tmp, seeds):
-    """Returns (violations, facts) for one program text."""
+def check_program(idx, src, tmp, seeds, helpers=None):
+    """Returns (violations, facts) for one program text (`helpers`: sibling modules the program imports)."""
     viol = []
     d = os.path.join(tmp, f"p{idx}")
     os.makedirs(d, exist_ok=True)
     path = os.path.join(d, f"prog_{idx}.py")
     with open(path, "w", encoding="utf-8") as f:
         f.write(src)
+    extra = {}
+    for name, text in (helpers or {}).items():
+        with open(os.path.join(d, name), "w", encoding="utf-8") as f:
+            f.write(text)
+        extra = {"PYTHONPATH": core.REPO + os.pathsep + d}       # the string entry point has no directory of its own
     b64 = base64.b64encode(src.encode()).decode()
     runs = {}
     for hs in seeds:
-        runs[("path", hs)] = cli([path], d, {"PYTHONHASHSEED": hs})
-    runs[("b64", seeds[0])] = cli(["-s", b64], d, {"PYTHONHASHSEED": seeds[0]})
-    runs[("b64", seeds[-1])] = cli(["-s", b64], d, {"PYTHONHASHSEED": seeds[-1]})
-    runs[("path+timer", seeds[0])] = cli([path], d, {"PYTHONHASHSEED": seeds[0], "NADA_TIMER": "1"})
-    runs[("b64+timer", seeds[0])] = cli(["-s", b64], d, {"PYTHONHASHSEED": seeds[0], "NADA_TIMER": "1"})
+        runs[("path", hs)] = cli([path], d, dict(extra, PYTHONHASHSEED=hs))
+    runs[("b64", seeds[0])] = cli(["-s", b64], d, dict(extra, PYTHONHASHSEED=seeds[0]))
+    runs[("b64", seeds[-1])] = cli(["-s", b64], d, dict(extra, PYTHONHASHSEED=seeds[-1]))
+    runs[("path+timer", seeds[0])] = cli([path], d, dict(extra, PYTHONHASHSEED=seeds[0], NADA_TIMER="1"))
+    runs[("b64+timer", seeds[0])] = cli(["-s", b64], d, dict(extra, PYTHONHASHSEED=seeds[0], NADA_TIMER="1"))
     parsed = {}
     for k, (rc, out) in runs.items():
         obj, err = parse_line(out)
@@ -98,6 +103,35 @@ def check_program(idx, src, tmp, seeds):
         viol.append(("timers", "stdout with NADA_TIMER=1 differs from stdout without"))
     return viol, (p0 or {}).get("result")
 
+
+# a program whose operations are created in several files (helper modules next to it): every per-file table of the MIR
+# must come out in the same order whatever the hash seed
+HELPERS = {
+    "pricing_rules.py": "from nada_dsl import *\n\ndef price(a, b):\n    return a * b + a\n",
+    "rounding_rules.py": "from nada_dsl import *\n\ndef rnd(x, y):\n    d = x - y\n    return d * Integer(2)\n",
+    "zz_fees.py": "from nada_dsl import *\n\n@nada_fn\ndef fee(x: SecretInteger) -> SecretInteger:\n    return x + x\n",
+    "audit_trail.py": "from nada_dsl import *\n\ndef total(xs):\n    return sum(xs)\n",
+    "a.py": "from nada_dsl import *\n\ndef pick(c, x, y):\n    return c.if_else(x, y)\n",
+}
+MULTI_FILE = """from nada_dsl import *
+from pricing_rules import price
+from rounding_rules import rnd
+from zz_fees import fee
+from audit_trail import total
+from a import pick
+
+
+def nada_main():
+    p = Party(name="P")
+    a = SecretInteger(Input(name="a", party=p))
+    b = SecretInteger(Input(name="b", party=p))
+    x = price(a, b)
+    y = rnd(x, a)
+    z = fee(y)
+    t = total([x, y, z])
+    w = pick(a < b, t, z)
+    return [Output(w, "w", p), Output(t, "t", p)]
+"""
 
 FAILING = {
     "missing entry point": "from nada_dsl import *\n\ndef main():\n    return []\n",
@@ -186,6 +220,15 @@ def run(res, tier):
                     nontrivial.add(src)
                 for kind, text in viol:
                     res.violation({"property": "C13", "kind": kind, "text": text, "source": src}, f"program {i}: {kind}: {text}"[:400])
+        # operations created in several files
+        mseeds = [str(i) for i in range(6 if tier == "quick" else 24)]
+        viol, result = check_program("multi", MULTI_FILE, tmp, mseeds, HELPERS)
+        evals += 1
+        results.append(result)
+        if result != "Success":
+            viol.append(("envelope", f"the multi-file program does not compile: {result}"))
+        for kind, text in viol:
+            res.violation({"property": "C13", "kind": kind, "text": text, "source": MULTI_FILE, "helpers": HELPERS}, f"multi-file program: {kind}: {text}"[:400])
         # file names: two programs (one of them importing standard-library modules) under every listed name
         name_evals = 0
         for src in [s for s in progs[:2]] + [IMPORTING + s for s in progs[:1]]:
@@ -247,7 +290,7 @@ def run(res, tier):
         "rule": "generated programs rendered to Python source and compiled in fresh processes: file path under "
                 f"PYTHONHASHSEED in {seeds}, base64 entry point under two hash seeds, both again with NADA_TIMER=1; stdout must be "
                 "byte-identical across hash seeds and timers, one JSON object per run, MIRs equal up to source locations across entry "
-                "points; plus programs that fail (no entry point, raises, import error, syntax error) and bad argument lists; "
+                "points; one program whose operations are created in five helper modules next to it, under 6 (quick) / 24 hash seeds; plus programs that fail (no entry point, raises, import error, syntax error) and bad argument lists; "
                 "non-trivial = distinct program texts that compile successfully",
         "program_results": {r: results.count(r) for r in set(results)},
         "fresh_processes": evals * (len(seeds) + 4),
@@ -285,7 +328,8 @@ def replay(obj):
             o, err = parse_line(cli(obj.get("args", []), tmp, {})[1])
             bad = bool(err) or o["result"] != "Failure"
         else:
-            viol, _ = check_program(0, obj["source"], tmp, ["0", "1", "4242"])
+            seeds = [str(i) for i in range(24)] if obj.get("helpers") else ["0", "1", "4242"]
+            viol, _ = check_program(0, obj["source"], tmp, seeds, obj.get("helpers"))
             print(viol)
             bad = bool(viol)
     finally:
